@@ -13,6 +13,7 @@ import (
 
 	"github.com/dpb587/rdfkit-go/encoding/html/htmlcontent"
 	"github.com/dpb587/rdfkit-go/encoding/jsonld/jsonldcontent"
+	"github.com/dpb587/rdfkit-go/encoding/rdfjson"
 	"github.com/dpb587/rdfkit-go/encoding/rdfjson/rdfjsoncontent"
 	"github.com/dpb587/rdfkit-go/encoding/rdfxml/rdfxmlcontent"
 	"github.com/dpb587/rdfkit-go/rdf"
@@ -46,7 +47,32 @@ var c18Targets = []c18Tgt{
 	{"nt", ".nt", "ntriples", true}, {"nq", ".nq", "nquads", false}, {"ttl", ".ttl", "turtle", true}, {"rdf-json", ".rj", "rdfjson", true},
 }
 
-func c18Source(r *hx.Rand, s c18Src) []byte {
+// c18Source returns a document of the source type; written says it is the output of the library's own encoder for
+// that type, which content sniffing has to recognise whatever it holds.
+func c18Source(r *hx.Rand, s c18Src) (doc []byte, written bool) {
+	if s.typ == "rdfjson" && r.Bool() {
+		qs := nqGenDataset(r, false, 5)
+		if len(qs) == 0 {
+			qs = append(qs, rdf.Quad{Triple: rdf.Triple{Subject: rdf.IRI("http://e/s"), Predicate: rdf.IRI("http://e/p"), Object: nqGenLiteral(r)}})
+		}
+		var buf bytes.Buffer
+		enc, err := rdfjson.NewEncoder(&buf)
+		if err == nil {
+			for _, q := range qs {
+				q.GraphName = nil
+				if err = enc.AddTriple(context.Background(), q.Triple); err != nil {
+					break
+				}
+			}
+			if err == nil && enc.Close() == nil {
+				return buf.Bytes(), true
+			}
+		}
+	}
+	return c18SourceGen(r, s), false
+}
+
+func c18SourceGen(r *hx.Rand, s c18Src) []byte {
 	switch s.typ {
 	case "nt", "nq":
 		qs := nqGenDataset(r, s.typ == "nq", 5)
@@ -56,6 +82,13 @@ func c18Source(r *hx.Rand, s c18Src) []byte {
 			}
 		}
 		// some literals that look like markup: the content must not decide the type of a named file
+		if r.Chance(1, 4) {
+			// one subject naming the same blank node in two statements
+			b := rdf.NewBlankNode()
+			qs = append(qs, rdf.Quad{Triple: rdf.Triple{Subject: rdf.IRI("http://e/s"), Predicate: rdf.IRI("http://e/p"), Object: b}},
+				rdf.Quad{Triple: rdf.Triple{Subject: rdf.IRI("http://e/s"), Predicate: rdf.IRI("http://e/q"), Object: b}},
+				rdf.Quad{Triple: rdf.Triple{Subject: b, Predicate: rdf.IRI("http://e/p"), Object: nqGenLiteral(r)}})
+		}
 		if r.Chance(1, 4) {
 			qs = append(qs, rdf.Quad{Triple: rdf.Triple{Subject: rdf.IRI("http://e/s"), Predicate: rdf.IRI("http://e/p"),
 				Object: rdf.Literal{Datatype: rdf.IRI(xsdNS + "string"), LexicalForm: hx.Pick(r, []string{`<div vocab="http://v/">`, `<p itemscope>`, `{"@context": {}}`, `<?xml version="1.0"?>`, `<html>`, `<script type="application/ld+json">`})}}})
@@ -112,7 +145,7 @@ func c18Pipe(r *hx.Rand, n int, out *hx.Out, _ []string) {
 		rr := r.Fork()
 		src := c18Sources[c%len(c18Sources)]
 		tgt := c18Targets[(c/len(c18Sources))%len(c18Targets)]
-		doc := c18Source(rr, src)
+		doc, written := c18Source(rr, src)
 		if doc == nil {
 			continue
 		}
@@ -152,7 +185,7 @@ func c18Pipe(r *hx.Rand, n int, out *hx.Out, _ []string) {
 				"html":   !rdfjsoncontent.MatchBytes(doc) && !jsonldcontent.MatchBytes(doc) && htmlcontent.MatchBytes(doc),
 				"rdfxml": !rdfjsoncontent.MatchBytes(doc) && !jsonldcontent.MatchBytes(doc) && !htmlcontent.MatchBytes(doc) && rdfxmlcontent.MatchBytes(doc),
 				"nt":     !any, "ttl": !any, "trig": !any}
-			if !own[src.typ] {
+			if !own[src.typ] && !written {
 				how = "extension"
 				inName += src.ext
 			}
